@@ -34,7 +34,7 @@ def generate(rng, tier):
             for v in ("A", "a"):
                 body = ["R"] + vb + ["-", "SP", "0", R.mf(rng), R.mf(rng), "L", R.mf(rng), R.mf(rng), v, C.fh(rx), C.fh(ry), C.fh(0.125), str(rng.below(4)), C.fh(10.0), C.fh(10.0), "Z"]
                 g["zero-radius"].append("REN %d %d %d %d " % tuple(rc) + " ".join(body))
-    for _ in range(6000 if tier == "quick" else 200000):
+    for _ in range(6000 if tier == "quick" else 50000):
         vb, rc = R.viewbox(rng), R.rect(rng)
         body = ["R"] + vb + ["-"] + R.path(rng, verbs=["A", "a", "A", "a", "L", "q", "h"], n=rng.range(1, 5))
         g["random"].append("REN %d %d %d %d " % tuple(rc) + " ".join(body))
